@@ -1777,6 +1777,12 @@ class RTCSctpTransport(AsyncIOEventEmitter):
                 self._association_state == self.State.ESTABLISHED
                 and channel.id is not None
             ):
+                if any(item[0] == channel for item in self._data_channel_queue):
+                    # messages of this channel are still waiting to be handed
+                    # to the association, the stream is reset once they are
+                    self._data_channel_queue.append((channel, WEBRTC_DCEP, b""))
+                    return
+
                 # queue a stream reset
                 self._reconfig_queue.append(channel.id)
                 if len(self._reconfig_queue) == 1:
@@ -1811,6 +1817,14 @@ class RTCSctpTransport(AsyncIOEventEmitter):
 
         while self._data_channel_queue and not self._outbound_queue:
             channel, protocol, user_data = self._data_channel_queue.popleft()
+
+            # the channel was closed while messages were queued: reset its stream
+            if protocol == WEBRTC_DCEP and not user_data:
+                if channel.readyState == "closing" and channel.id is not None:
+                    self._reconfig_queue.append(channel.id)
+                    if len(self._reconfig_queue) == 1:
+                        await self._transmit_reconfig()
+                continue
 
             # register channel if necessary
             stream_id = channel.id
